@@ -145,6 +145,8 @@ def work(item, tier, seed):
     env.install()
     res = H.Result()
     tname, family, est, part = item
+    if tname == "hier":
+        return _work_hier(res, tier, seed, est)
     t = _targets()[tname]
     n = len(t["mu0"])
     target = _model(t)
@@ -272,6 +274,93 @@ def work(item, tier, seed):
     return res
 
 
+def _work_hier(res, tier, seed, combo):
+    """A hierarchical family with TWO sampled sites (score-function after score-function, and
+    score-function after reparameterised): the gradient of the later site's parameters and the
+    cross terms only appear here.  Target a ~ N(0,1), b ~ N(a,1), y ~ N(b,.5) observed."""
+    import jax
+    import jax.numpy as jnp
+    from genjax import gen, normal, seed as gseed
+    from genjax.adev import normal_reinforce, normal_reparam
+    from genjax.inference.vi import elbo_factory
+    from mc import env, tree
+    from checks.c11 import _menu as adev_menu
+
+    env.install()
+    first = normal_reinforce if combo[0] == "reinforce" else normal_reparam
+    second = normal_reinforce if combo[1] == "reinforce" else normal_reparam
+
+    @gen
+    def target():
+        a = normal(0.0, 1.0) @ "a"
+        b = normal(a, 1.0) @ "b"
+        y = normal(b, 0.5) @ "y"
+        return y
+
+    @gen
+    def family(constraint, params):
+        a = first(params[0], jnp.exp(params[1])) @ "a"
+        b = second(params[2] * a + params[3], jnp.exp(params[4])) @ "b"
+        return b
+
+    yobs = np.float32(0.8)
+    elbo = elbo_factory(target, family, {"y": jnp.asarray(yobs)}, ())
+    t = dict(mu0=np.zeros(2, np.float32), S0=np.asarray([[1.0, 1.0], [1.0, 2.0]], np.float32), A=np.asarray([[0.0, 1.0]], np.float32), R=np.asarray([[0.25]], np.float32), y=np.asarray([yobs], np.float32))
+    mp, Sp, logz = _posterior(t)
+    mpj, Spj = jnp.asarray(mp, jnp.float32), jnp.asarray(Sp, jnp.float32)
+
+    def closed(p):
+        m1, s1, c, m2, s2 = p[0], jnp.exp(p[1]), p[2], p[3], jnp.exp(p[4])
+        m = jnp.stack([m1, c * m1 + m2])
+        S = jnp.stack([jnp.stack([s1**2, c * s1**2]), jnp.stack([c * s1**2, c**2 * s1**2 + s2**2])])
+        Spi = jnp.linalg.inv(Spj)
+        kl = 0.5 * (jnp.trace(Spi @ S) + (mpj - m) @ Spi @ (mpj - m) - 2 + jnp.linalg.slogdet(Spj)[1] - jnp.linalg.slogdet(S)[1])
+        return logz - kl
+
+    # exact posterior in this parameterisation: a ~ N(mp0, Sp00), b | a ~ N(mp1 + Sp01/Sp00 (a - mp0), Sp11 - Sp01^2/Sp00)
+    cpost = Sp[0, 1] / Sp[0, 0]
+    post = np.asarray([mp[0], 0.5 * np.log(Sp[0, 0]), cpost, mp[1] - cpost * mp[0], 0.5 * np.log(Sp[1, 1] - Sp[0, 1] ** 2 / Sp[0, 0])], np.float32)
+    grid = [("posterior", post, True), ("off1", np.asarray([0.2, -0.3, 0.5, 0.1, 0.2], np.float32), False), ("off2", np.asarray([-0.4, 0.1, 1.2, -0.3, -0.5], np.float32), False)]
+    key = jax.random.key(seed * 57 + 10)
+    jest = jax.jit(gseed(lambda p: elbo.estimate(p)))
+    jgrad = jax.jit(gseed(lambda p: elbo.grad_estimate(p)))
+    sig0 = f"hier:{combo[0]}-then-{combo[1]}"
+    for pname, params, is_post in grid:
+        jp = jnp.asarray(params)
+        det = {"target": "hier", "family": f"{combo[0]}-then-{combo[1]}", "estimator": "mixed", "params": pname}
+        want = float(np.asarray(closed(jp)))
+        want_g = np.asarray(jax.grad(closed)(jp))
+        for what, fn in (("estimate", jest), ("grad", jgrad)):
+            acc = [0.0]
+
+            def run(D, fn=fn):
+                out, evs = env.run_recorded(fn, key, jp, mode="script", decisions=D)
+                res.evaluations += 1
+                return out, evs
+
+            def on_leaf(leaf, what=what):
+                res.states += 1
+                res.validated += 1
+                acc[0] = acc[0] + np.asarray(leaf.out, np.float64) * leaf.prob
+                if what == "estimate" and is_post and not H.close(float(np.asarray(leaf.out)), logz, rtol=2e-4, atol=1e-3):
+                    res.violate(PROP, f"not-tight-at-the-posterior:{sig0}", estimate=float(np.asarray(leaf.out)), log_evidence=logz, **det)
+                res.case(sig0, pname, what, tuple(c for _k, _l, c in leaf.path))
+                if not res.samples:
+                    res.add_sample(dict(det, method=what, value=np.asarray(leaf.out).tolist()))
+
+            st = tree.explore(run, adev_menu, on_leaf, check_determinism=False)
+            res.transitions += st.nodes
+            if abs(st.total_prob - 1.0) > 1e-5:
+                res.violate(PROP, f"tree-mass:{sig0}:{what}", total=st.total_prob, **det)
+                continue
+            if what == "estimate":
+                if not H.close(float(acc[0]), want, rtol=5e-4, atol=1e-3):
+                    res.violate(PROP, f"elbo-biased:{sig0}", expectation=float(acc[0]), closed_form=want, **det)
+            elif not H.close(acc[0], want_g, rtol=3e-3, atol=3e-3):
+                res.violate(PROP, f"elbo-gradient-biased:{sig0}", expectation=np.asarray(acc[0]), closed_form=want_g, **det)
+    return res
+
+
 def _same_draw(ev_scan, ev_hand, p, q_of):
     """The value to script in the hand step so that it consumes the draw the scan iteration
     consumed: reparam -> the same standard-normal noise; reinforce -> the same q sample."""
@@ -286,6 +375,8 @@ def items(tier):
                 its.append((tname, family, est, "objective"))
                 if family == "mean_field":
                     its.append((tname, family, est, "optimise"))
+    for combo in (("reinforce", "reinforce"), ("reparam", "reinforce"), ("reinforce", "reparam"), ("reparam", "reparam")):
+        its.append(("hier", "hierarchical", combo, "objective"))
     return its
 
 
